@@ -51,6 +51,12 @@ def gen(rng, cls, nmax=3, **kw):
     cfg["L"], cfg["T"], cfg["K"] = (enc(rng.choice(SCALES)) for _ in range(3))
     cfg["mu"] = enc(rng.choice([Fr(-1), Fr(2), Fr(1, 2)]))
     cfg["dec"] = [rng.randint(-6, 6) for _ in range(3)]          # decades for L, T, K
+    if sum(cfg["dec"]) % 3 == 0:
+        # a third of the episodes sit in a corner of the decade box (L and T at opposite ends: velocities and
+        # diffusivities rescaled by 1e-12 / 1e+12 and 1e-18 / 1e+18), where a hidden absolute threshold compared with a
+        # dimensional quantity shows; decided from the numbers already drawn, so the random stream is unchanged
+        e = 6 if cfg["dec"][0] >= 0 else -6
+        cfg["dec"][0], cfg["dec"][1] = e, -e
     other = opsdrive.gen_config(rng, cls, nmax=nmax)       # only to draw a second set of coefficient fields
     # second coefficient fields on the SAME mesh
     dims = opsdrive.dims_of(cfg)
